@@ -3394,7 +3394,8 @@ func (p *parser) parseForPhraseStmtPart(lhs []ast.Expr) *ast.ForPhraseStmt {
 	case 2:
 		stmt.Key, stmt.Value = p.toIdent(lhs[0]), p.toIdent(lhs[1])
 	default:
-		log.Panicln("TODO: parseForPhraseStmt - too many variables, 1 or 2 is required")
+		p.errorExpected(lhs[2].Pos(), "at most 2 loop variables", 2)
+		stmt.Key, stmt.Value = p.toIdent(lhs[0]), p.toIdent(lhs[1])
 	}
 	return stmt
 }
